@@ -5,6 +5,7 @@ import (
 	"context"
 	"errors"
 	"fmt"
+	"strings"
 	"math/rand"
 	"os"
 	"regexp"
@@ -17,6 +18,7 @@ import (
 	"unsafe"
 
 	"github.com/hedzr/logg/slog"
+	errorsv3 "gopkg.in/hedzr/errors.v3"
 )
 
 // Family "pool": concurrent logging (C08) and history independence (C09).
@@ -425,6 +427,10 @@ func (readingMarshaller) MarshalSlogObject(enc *slog.PrintCtx) error {
 	return nil
 }
 
+type panicStringer struct{}
+
+func (panicStringer) String() string { panic("String() of a user value panics") }
+
 func newHistEnv() *histEnv {
 	e := &histEnv{rec: &poolRecorder{}, ts: time.Date(2023, 11, 12, 13, 14, 15, 987654000, time.FixedZone("X", 3600))}
 	e.group = slog.Group("grp", "b", 1, "a", 2)
@@ -444,11 +450,11 @@ func newHistEnv() *histEnv {
 	return e
 }
 
-// record classes: format x severity class x shape.  id = fmt*100 + sev*10 + shape
+// record classes: format x severity class x shape.  id = fmt*1000 + sev*100 + shape
 var histSevs = []slog.Level{slog.InfoLevel, slog.ErrorLevel, slog.TraceLevel, slog.FailLevel, slog.Level(41), slog.Level(42), slog.Level(43), slog.AlwaysLevel}
 
 func (e *histEnv) emit(id int, viaVerb bool) {
-	f, sv, shape := id/100, (id/10)%10, id%10
+	f, sv, shape := id/1000, (id/100)%10, id%100
 	l := e.loggers[f%3]
 	sev := histSevs[sv%len(histSevs)]
 	msg := "probe message"
@@ -468,7 +474,22 @@ func (e *histEnv) emit(id int, viaVerb bool) {
 		attrs = slog.NewAttrs(slog.Group("g1", "x", 1, slog.Group("g2", "y", 2)), "after", true)
 	case 7:
 		attrs = slog.NewAttrs("m", readingMarshaller{})
+	case 8: // an attribute that uses a reserved field name, sorted last
+		attrs = slog.NewAttrs("k", 1, "time", e.ts)
+	case 9: // all reserved names as attribute keys
+		attrs = slog.NewAttrs("time", e.ts, "level", "x", "msg", "y", "caller", "z", "logger", "w")
+	case 10: // a record far larger than any buffer the pool starts with
+		msg = strings.Repeat("0123456789abcdef", 7000)
+	case 11: // an error value that carries a stack trace
+		attrs = slog.NewAttrs("err", errorsv3.New("stacked error"), "n", 1)
+	case 12: // a value whose own method panics half way through the record (recovered by the caller)
+		attrs = slog.NewAttrs("a", 1, "user", panicStringer{}, "z", 2)
+	case 13: // duplicate and unsorted keys at top level and inside a group
+		attrs = slog.NewAttrs("z", 1, "a", 2, "z", 3, slog.Group("g", "y", 1, "x", 2, "y", 3), "a", 4)
+	case 14: // huge attribute value
+		attrs = slog.NewAttrs("big", strings.Repeat("x", 70000), "after", 1)
 	}
+	defer func() { _ = recover() }()
 	if viaVerb {
 		l.LogAttrs(context.Background(), sev, msg, attrs)
 		return
